@@ -159,6 +159,15 @@ Section ABF.
     | [] => grid0
     | su :: tl => fun j => gadd G (gsum (fst su) j) (union_shared tl j)
     end.
+  (* the same, read directly off a trace: for walkers k0 .. k0+n-1, every sample fed to them up to the
+     last exchange of the trace, each exactly once *)
+  Fixpoint fed_from (n k0 : nat) (f : nat -> list sample) : grid :=
+    match n with
+    | O => grid0
+    | S m => fun j => gadd G (gsum (f k0) j) (fed_from m (S k0) f j)
+    end.
+  Definition fed_union (n : nat) (es : list ev) : grid :=
+    fed_from n 0 (fun v => samples_of v (upto_last_exchange es)).
 End ABF.
 
 Definition Zgrp : GrpOps Z := mkGrpOps Z 0 Z.add Z.sub.
